@@ -53,6 +53,28 @@ ODD = ["", "foo bar", "Foo Bar", "foo\nbar", "2fa", "123", "a_b", "fooBar", "FOO
        "foo's", "\"q\"", "`x`", "$HOME", "%s%n", "\t"]
 
 
+# `replace` in regex mode: capture groups that are optional / in one arm of an alternation / named / never matching,
+# and replacements that mention groups (set, unset, out of range), `$0`, `${name}`, `$$`
+GROUP_PATTERNS = [r"(?:set_(\w+)|get_(\w+))\(", r"(s)?et_(\w+)", r"(?P<verb>set|get)_(?P<what>\w+)", r"(foo)|(bar)", r"(a)?(b)?(c)?x",
+                  r"(\d+)?-(\w+)", r"((a)|b)+", r"(?:(x)|y)*z", r"(never_matches_zzz)?\w+_(\w+)", r"(\w+)_(\w+)(_(\w+))?",
+                  r"()()()()()()()()()()()(q)?(\w)", r"(?P<n>\d)?(?P<w>[a-z]+)", r"(é)?(\w+)", r"^(\s+)?(\S+)", r"(.)?$", r"(a)|", r"(?:(a)){0}b"]
+GROUP_REPLACEMENTS = ["$1", "$2", "[$1|$2]", "$0", "$0$0", "$9", "$12", "$13", "${1}x", "${verb}_${what}", "${n}", "${nope}", "$$", "$$1", "$", "$1$",
+                      "pre_$2_post", "$3$2$1", "\\$1", "${", "$name", "$1$2$3$4$5$6$7$8$9$10$11$12$13", "", "é$1"]
+GROUP_LINES = ["set_alpha(1); get_beta(2);", "get_x()", "set_y()", "et_z", "foo bar foobar", "abcx x bx", "12-ab -cd", "bbab", "yyz xz z", "a_b a_b_c",
+               "q7 7", "5abc abc", "éfoo foo", "  indented", "", "b", "plain words_here only", "get_é() set_日本()", "\xff get_q( \xff"]
+
+
+def gen_group_replace(rng):
+    pat = rng.choice(GROUP_PATTERNS)
+    rep = rng.choice(GROUP_REPLACEMENTS)
+    lines = [rng.choice(GROUP_LINES) for _ in range(rng.randint(1, 5))]
+    content = "\n".join(lines).encode("utf-8").replace(b"\\xff", b"\xff") + (b"\n" if rng.random() < 0.8 else b"")
+    mode = rng.choice([["--dry-run"], ["--dry-run", "--preview", "diff"], ["--preview", "diff", "-y"], ["-y"], ["--dry-run", "--output", "json"],
+                       ["-y", "--output", "json"], ["--dry-run", "--preview", "matches"], ["--dry-run", "--preview", "table"]])
+    literal = rng.random() < 0.15
+    return pat, rep, content, mode + (["--no-regex"] if literal else [])
+
+
 def term_pool(rng):
     """(search, replace, words or None): words are set when the term is an ordinary multi-word identifier"""
     r = rng.random()
@@ -576,11 +598,18 @@ def gen_case(rng, idx):
     tree = gen_tree(rng, occs)
     files = [t for t in tree if t[0] == "f"]
     case = {"idx": idx, "search": search, "replace": repl, "tree": tree, "state": [], "steps": []}
-    fam = rng.choice(["plan", "plan", "plan_apply", "plan_apply", "rename", "rename", "replace", "replace", "search", "stale_tree",
+    fam = rng.choice(["replace_groups", "replace_groups", "plan", "plan", "plan_apply", "plan_apply", "rename", "rename", "replace", "replace", "search", "stale_tree",
                       "stale_tree", "stale_plan", "stale_plan", "state", "state", "misc", "paths"])
     case["family"] = fam
     steps = case["steps"]
-    if fam == "plan":
+    if fam == "replace_groups":
+        pat, rep, content, mode = gen_group_replace(rng)
+        case["tree"] = tree = [["f", H(b"a.txt"), H(content)], ["f", H(b"set_name_get_name.txt"), H(b"get_n(\n")]]
+        case["search"], case["replace"] = pat, rep
+        steps.append({"argv": ["replace", "--no-auto-init"] + mode + ["--", pat, rep]})
+        if "-y" in mode:
+            steps.append({"argv": ["undo", "latest"]})
+    elif fam == "plan":
         steps.append({"argv": argv_for(rng, "plan", search, repl)})
     elif fam == "plan_apply":
         a = argv_for(rng, "plan", search, repl)
